@@ -2,7 +2,7 @@
    The input is a script of typed lines followed by end of input. entry_invalid q line: the validator
    rejects what reaches it for that line (the stripped text, or the default for an empty line). *)
 From Coq Require Import Lia.
-From Clikit Require Import Base.Prelude Base.Res Model.Conv Model.Question Proofs.QuestionLemmas Proofs.QuestionAskLemmas.
+From Clikit Require Import Base.Prelude Base.Res Model.Conv Model.Question Proofs.QuestionLemmas Proofs.QuestionAskLemmas Proofs.QuestionConfirmLemmas.
 
 (* For EVERY choice list and script: an answer is a member of the choices (a list of members when multi-select). *)
 Theorem answer_is_member : forall q script a, o_end (ask_choice true q script) = Answered a ->
@@ -118,6 +118,42 @@ Print Assumptions confirmation_table.
 Theorem confirmation_non_interactive : forall dflt prefix script, ask_confirm false dflt prefix script = (CBool dflt, 0).
 Proof. exact confirm_non_interactive. Qed.
 Print Assumptions confirmation_non_interactive.
+
+(* Fourth session: the same table for patterns WITH and WITHOUT the (?i) flag (ask_confirm_g ci; ask_confirm is ci = true),
+   and "the answer matches the pattern" said on the strings themselves: without the flag the stripped answer literally begins
+   with the prefix, with the flag it begins with a string that equals the prefix after lower-casing both.  Still PARTIAL in the
+   sense above: literal prefix patterns only. *)
+Theorem confirmation_is_the_case_insensitive_table : forall inter dflt prefix script,
+  ask_confirm inter dflt prefix script = ask_confirm_g true inter dflt prefix script.
+Proof. exact ask_confirm_is_g_ci. Qed.
+Print Assumptions confirmation_is_the_case_insensitive_table.
+Theorem confirmation_table_with_and_without_the_flag : forall ci dflt prefix line rest,
+  ask_confirm_g ci true dflt prefix (line :: rest)
+  = (CBool (match strip_ws line with [] => dflt | t => (if ci then starts_with_ci else starts_with_cs) prefix t end), 1).
+Proof. exact confirm_table_g. Qed.
+Print Assumptions confirmation_table_with_and_without_the_flag.
+Theorem confirmation_true_exactly_for_matching_answers : forall ci dflt prefix line rest,
+  fst (ask_confirm_g ci true dflt prefix (line :: rest)) = CBool true <->
+  (strip_ws line = [] /\ dflt = true) \/
+  (strip_ws line <> [] /\
+   if ci then exists u t, strip_ws line = u ++ t /\ map lower_char u = map lower_char prefix
+   else exists t, strip_ws line = prefix ++ t).
+Proof. exact confirm_true_iff. Qed.
+Print Assumptions confirmation_true_exactly_for_matching_answers.
+Theorem case_sensitive_match_is_a_case_insensitive_match : forall p s, starts_with_cs p s = true -> starts_with_ci p s = true.
+Proof. exact starts_with_cs_implies_ci. Qed.
+Print Assumptions case_sensitive_match_is_a_case_insensitive_match.
+Theorem confirmation_any_flag_non_interactive : forall ci dflt prefix script, ask_confirm_g ci false dflt prefix script = (CBool dflt, 0).
+Proof. exact confirm_g_non_interactive. Qed.
+Print Assumptions confirmation_any_flag_non_interactive.
+Theorem confirmation_any_flag_end_of_input : forall ci dflt prefix, ask_confirm_g ci true dflt prefix [] = (CAborted, 0).
+Proof. exact confirm_g_end_of_input. Qed.
+Print Assumptions confirmation_any_flag_end_of_input.
+Example the_case_matters_without_the_flag :
+  fst (ask_confirm_g false true false [89%N] ([121%N] :: [])) = CBool false /\
+  fst (ask_confirm_g true true false [89%N] ([121%N] :: [])) = CBool true /\
+  fst (ask_confirm_g false true false [89%N] ([89%N; 101%N; 115%N] :: [])) = CBool true.
+Proof. exact case_matters_without_the_flag. Qed.
 
 (* ======================================================================================================================
    What is WRITTEN (Model/QuestionText.v; the driver's entry run_C18T compares the whole text of the error output with
